@@ -82,6 +82,7 @@ def programs(tier: str):
     for d in (1,):
         for kind in ("value", "exc"):
             yield {"d": d, "kind": kind, "tc": None, "batch": 1, "cancel_at_return": True}
+            yield {"d": d, "kind": kind, "tc": None, "batch": 1, "cancel_at_return": 2}
     # the caller cancelled by the controller at ANY quiescent point or between two loop iterations
     # (instead of at a fixed instant)
     for d in (1, 2, 3):
@@ -389,7 +390,11 @@ def execute(program, ch: Chooser) -> Result:  # noqa: C901, PLR0912, PLR0915
                         await asyncio.sleep(1.0 if kind == "ignore1" else 3.0)
                         return "late"
                     raise
-                if program.get("cancel_at_return"):
+                if program.get("cancel_at_return") == 2:
+                    # two hops: the request is made AFTER the wrapper has learnt the outcome and
+                    # BEFORE the caller has resumed (cancel() still returns True: it must end cancelled)
+                    w.loop.call_soon(lambda: w.loop.call_soon(task.cancel))
+                elif program.get("cancel_at_return"):
                     w.loop.call_soon(task.cancel)  # runs before the caller is resumed
                 if kind in ("exc", "falsy_exc", "own_timeout", "own_invalid", "block_exc"):
                     raise err
